@@ -101,7 +101,7 @@ pub fn run_target(ctx: &Ctx, target: &str, data: &[u8]) -> Vec<Viol> {
                     injections.push(Inj::Datagram(src, crate::engine::hex(bytes)));
                 }
             }
-            crate::props::c08::run_case(ctx, &Case { state, injections })
+            crate::props::c08::run_case(ctx, &Case { state, injections, stale: (data[0] as usize / ALL_STATES.len()) as u8 % 4 })
         }
     }
 }
@@ -270,7 +270,7 @@ pub fn decode_history(target: &str, data: &[u8]) -> Option<serde_json::Value> {
                 let at = (b >> 3) % nodes;
                 let h = b >> 6;
                 ops.push(match b % 8 {
-                    0 | 1 => Op::Read { at, dst: Dst::Node(h % nodes), host: (b >> 5) % 3 },
+                    0 | 1 => Op::Read { at, dst: Dst::Node(h % nodes), host: (b >> 5) % 3 + 5 * (cfg >> 5 & 3) },
                     2 => Op::Read { at, dst: Dst::Unknown, host: h % 3 },
                     3 => Op::Read { at, dst: Dst::Broadcast, host: h % 3 },
                     4 => Op::Read { at, dst: Dst::Own, host: h % 3 },
